@@ -641,6 +641,9 @@ func (m *chainMachine) actions(prof cmProfile) map[string]func(*rapid.T) {
 	add("advance", m.aAdvance)
 	add("marketRound", m.aMarketRound)
 	add("withdrawThenClose", m.aWithdrawThenClose)
+	if prof.weights != nil && prof.weights["nearMissBid"] > 0 {
+		add("nearMissBid", m.aNearMissBid)
+	}
 	acts[""] = func(t *rapid.T) {}
 	return acts
 }
@@ -772,4 +775,69 @@ func (m *chainMachine) bootstrap(t *rapid.T) {
 			m.aMarketRound(t)
 		}
 	}
+}
+
+
+// aNearMissBid (C08): take an open order that requires auditors, make a provider exactly
+// eligible and then (usually) break one thing: one all-of auditor missing, one attribute
+// missing or different, no any-of auditor; then bid with a valid price and deposit.
+func (m *chainMachine) aNearMissBid(t *rapid.T) {
+	var cand []mtypes.Order
+	for _, o := range m.snap.orders {
+		if o.State == mtypes.OrderOpen && (len(o.Spec.Requirements.SignedBy.AllOf) > 0 || len(o.Spec.Requirements.SignedBy.AnyOf) > 0) {
+			cand = append(cand, o)
+		}
+	}
+	if len(cand) == 0 {
+		t.Skip("no open order with auditor requirements")
+	}
+	o := cand[m.pick(t, "order", len(cand))]
+	p := m.providers()[m.pick(t, "prov", 3)]
+	req := o.Spec.Requirements
+	if _, ok := m.snap.provider(p.bech); !ok {
+		m.deliver(fmt.Sprintf("CreateProvider(%s,%s)", p.name, cmAttrStr(req.Attributes)), &ptypes.MsgCreateProvider{Owner: p.bech, HostURI: "https://" + p.name + ".example.com", Attributes: req.Attributes}, p)
+	}
+	defect := rapid.IntRange(0, 5).Draw(t, "defect") // 0: none
+	auds := map[string]bool{}
+	var order []string
+	for _, a := range append(append([]string{}, req.SignedBy.AllOf...), req.SignedBy.AnyOf...) {
+		if !auds[a] {
+			auds[a] = true
+			order = append(order, a)
+		}
+	}
+	victim := order[m.pick(t, "victim", len(order))]
+	for _, ab := range order {
+		a := m.byAddr[ab]
+		// start from a clean attestation so that the defect is real
+		for _, ex := range m.snap.audits {
+			if ex.Owner == p.bech && ex.Auditor == ab {
+				m.deliver(fmt.Sprintf("DeleteProviderAttributes(%s,%s,all)", a.name, p.name), &atypes.MsgDeleteProviderAttributes{Owner: p.bech, Auditor: ab}, a)
+			}
+		}
+		attrs := append(akashtypes.Attributes{}, req.Attributes...)
+		// always add an unrelated attribute so that an attestation exists even for empty requirements
+		attrs = append(attrs, akashtypes.Attribute{Key: "zone", Value: "zz"})
+		if ab == victim {
+			switch defect {
+			case 1:
+				continue // this auditor signs nothing
+			case 2:
+				if len(req.Attributes) > 0 {
+					attrs = attrs[1:] // one required attribute missing
+				}
+			case 3:
+				if len(req.Attributes) > 0 {
+					attrs[0].Value = "other" // same key, different value
+				}
+			}
+		} else if defect == 4 {
+			continue // only the victim signs (breaks all-of with two auditors)
+		}
+		m.deliver(fmt.Sprintf("SignProviderAttributes(%s,%s,%s)", a.name, p.name, cmAttrStr(attrs)), &atypes.MsgSignProviderAttributes{Owner: p.bech, Auditor: ab, Attributes: attrs}, a)
+	}
+	max := o.Spec.Price().Amount.Int64()
+	m.label(fmt.Sprintf("near-miss-defect-%d", defect))
+	m.deliver(fmt.Sprintf("CreateBid(%s,%s,price=%d)[near-miss %d]", m.bidName(mtypes.MakeBidID(o.OrderID, p.addr)), p.name, max, defect),
+		&mtypes.MsgCreateBid{Order: o.OrderID, Provider: p.bech, Price: cmCoin(max), Deposit: cmCoin(m.params.bidMin)}, p)
 }
